@@ -582,3 +582,24 @@ func GenBadMaxFrame(r *hx.RNG, i int) []string {
 		fmt.Sprintf("D%s:3:0:-:z%d.2", Y, pick(1, 5, 300)))
 	return out
 }
+
+// GenSweepOrder (C09): outcome depends on Go's map iteration order over the streams: seven streams
+// whose head frame (1000 octets) does not fit and one stream whose head (10 octets) does, behind an
+// exhausted connection window, then a connection grant that fits only the small one.  A sweep that
+// stops at the first stream that does not fit delivers the small frame only if it is visited first
+// (1/8): with 8 fresh sessions per run the miss probability is (1/8)^8 < 1e-7.
+func GenSweepOrder(r *hx.RNG, i int) []string {
+	// one session, many sweeps: every `range` over the map draws a fresh order, so each round (a new
+	// 10-octet frame on a fresh stream + WINDOW_UPDATE(0,10)) is an independent 1/8 chance for a
+	// stop-at-first-misfit sweep to look right; 9 rounds: (1/8)^9 < 1e-8 per session
+	out := []string{"Ss:5=65535,4=1048576", fmt.Sprintf("Dc:1:0:-:z65535.%d", r.Intn(200))}
+	// (driver cost grows with labels x streams x the 65535-octet frame: 3 waiting streams, one small
+	// stream reused, 11 rounds: (1/4)^11 < 3e-7)
+	for k := 0; k < 3; k++ {
+		out = append(out, fmt.Sprintf("Dc:%d:0:-:z1000.%d", 3+2*k, k))
+	}
+	for k := 0; k < 11; k++ {
+		out = append(out, fmt.Sprintf("Dc:%d:0:-:z10.%d", 101+2*(i%3), k), "Ws:0:10")
+	}
+	return out
+}
